@@ -233,7 +233,10 @@ impl<R: io::Read + io::Seek> ReaderCursor<R> {
                 );
                 Ok(current_cursor.move_on_key_greater_than_or_equal_to(key))
             }
-            None => Ok(None),
+            None => {
+                self.current_cursor = None;
+                Ok(None)
+            }
         }
     }
 
